@@ -97,7 +97,14 @@ class InjectedFalsy(InjectedFault):
         return 0
 
 
-EXC_KINDS = {"falsy": InjectedFalsy, "stopiteration": InjectedStopIteration, "valueerror": InjectedValueError, "plain": InjectedFault, "noargs": InjectedNoArgs, "typeerror_kw": InjectedTypeError, "keyerror": InjectedKeyError}
+class InjectedBadStr(InjectedFault):
+    """An exception whose ``__str__`` itself raises (a formatting bug in a user-defined error class): still the node's error."""
+
+    def __str__(self) -> str:
+        raise TypeError("__str__ of the injected exception is broken")
+
+
+EXC_KINDS = {"badstr": InjectedBadStr, "falsy": InjectedFalsy, "stopiteration": InjectedStopIteration, "valueerror": InjectedValueError, "plain": InjectedFault, "noargs": InjectedNoArgs, "typeerror_kw": InjectedTypeError, "keyerror": InjectedKeyError}
 InjectedFault.hg_injected = True
 
 
